@@ -743,7 +743,7 @@ EXPLANATION = (
     "file does not exist and its glob matches every finalized RF file name and no tmp. name. R5: the counting pass and the filling "
     "pass of digital_rf_create_rf_data_index add a row under the same predicates. R6 (= C04.R3): the file's capacity and the room "
     "left in it are differences of two boundary samples obtained by the ceil helper from the printed name time and that time plus "
-    "one file cadence. R7: a row is stored only for a block that starts before next_global_sample + samples_left, the first sample of the next file (the row condition of the fill pass is evaluated for the orderings 'block start == / > end of file'; atoms comparing the two are recognised by their linear form). Does NOT decide the other index row contents.")
+    "one file cadence. R4 also: regeneration looks in every sub-directory before giving up. R7: a row is stored only for a block that starts before next_global_sample + samples_left, the first sample of the next file (the row condition of the fill pass is evaluated for the orderings 'block start == / > end of file'; atoms comparing the two are recognised by their linear form). R8: every store of the session start second (init_utc_timestamp) is integer-only or made by one of the exact conversion functions. Does NOT decide the other index row contents.")
 TECHNIQUE = ('clang JSON AST + Python ast; attribute table extraction through forwarding helpers and 4-way comparison; truth-table equivalence of the two index passes; order-theoretic evaluation of the row condition (atoms classified by linear form); write-once field stores; glob/regex language inclusion')
 ASSUMPTIONS = ["HDF5 attribute API semantics", "clang 14 AST and CPython ast are faithful"]
 FILES = [C_LIB, "python/digital_rf/digital_rf_hdf5.py", "python/digital_rf/list_drf.py"]
